@@ -874,6 +874,10 @@ func (db *DB) Close(ctx context.Context) (err error) {
 	db.f = nil
 	db.opened = false
 	db.rtx = nil
+	// WAL bookkeeping from before the close says nothing about what happens
+	// to the WAL while the database is closed; a reopened DB must not treat a
+	// truncation by another process as its own checkpoint.
+	db.syncState = syncState{}
 	db.mu.Unlock()
 
 	if sqlDB != nil {
